@@ -96,6 +96,24 @@ pub fn fnv(data: &[u8]) -> u64 {
 pub struct Scratch {
     pub path: PathBuf,
     keep: bool,
+    /// Exclusive flock on `<path>.lock` for fixed-path worlds: two runs that map to the same
+    /// key (identical generated scenarios, or another process exploring the same seed) take
+    /// turns instead of sharing the directory.
+    _lock: Option<fs::File>,
+}
+
+fn lock_exclusive(path: &Path) -> Option<fs::File> {
+    use std::os::fd::AsRawFd;
+    let lock = PathBuf::from(format!("{}.lock", path.to_string_lossy()));
+    if let Some(parent) = lock.parent() {
+        let _ = fs::create_dir_all(parent);
+    }
+    let f = fs::OpenOptions::new().create(true).write(true).truncate(false).open(&lock).ok()?;
+    // SAFETY: plain flock(2) on a descriptor this function owns.
+    unsafe {
+        libc::flock(f.as_raw_fd(), libc::LOCK_EX);
+    }
+    Some(f)
 }
 
 impl Scratch {
@@ -108,7 +126,7 @@ impl Scratch {
             .join(format!("{tag}{}", N.fetch_add(1, Ordering::Relaxed)));
         let _ = fs::remove_dir_all(&path);
         fs::create_dir_all(&path).unwrap();
-        Scratch { path, keep: false }
+        Scratch { path, keep: false, _lock: None }
     }
     /// A scratch directory whose path is a function of `key` only (fixed length,
     /// no pid): byte-exact replays need the same absolute paths, because cache
@@ -116,17 +134,19 @@ impl Scratch {
     pub fn fixed(key: u64) -> Scratch {
         let root = std::env::var("VERIF_SCRATCH").unwrap_or_else(|_| "/verif/target/scratch".to_string());
         let path = PathBuf::from(root).join("f").join(format!("{key:016x}"));
+        let lock = lock_exclusive(&path);
         let _ = fs::remove_dir_all(&path);
         fs::create_dir_all(&path).unwrap();
-        Scratch { path, keep: false }
+        Scratch { path, keep: false, _lock: lock }
     }
     /// Like [`Scratch::fixed`] but under an explicit root (for work that must live
     /// outside any git work tree: veryl's `Git::init` adopts an enclosing repository).
     pub fn fixed_in(root: &str, key: u64) -> Scratch {
         let path = PathBuf::from(root).join(format!("{key:016x}"));
+        let lock = lock_exclusive(&path);
         let _ = fs::remove_dir_all(&path);
         fs::create_dir_all(&path).unwrap();
-        Scratch { path, keep: false }
+        Scratch { path, keep: false, _lock: lock }
     }
     pub fn keep(&mut self) {
         self.keep = true;
